@@ -13,7 +13,9 @@ Sub-spaces (`sub` of a case):
   dim       dimensioned fields x wrong dimensions (26 cube offsets + the other reaction orders) x forms x routes
   usym      unsupported unit symbols per slot of a units system x routes (UnitsSystem, item/attribute setters,
             dictionary, units_system=dict of every constructor, "units" of every dictionary reader)
-  gridsize  grid sizes 0 and -1 per axis (constructor and dictionaries)
+  gridsize  every grid size whose integer value is <= 0 (0, -1, -0.0, 0.5, 0.999, 1e-300, -0.5, ...) per axis
+            (constructor, dictionaries with canonical keys and width/height/depth, JSON files)
+  cgperiodic coarse-graining a grid that has a periodical axis, through all 4 entry points
   envlen    cell_env of length n-1, n+1, 0 (constructor, setter, dictionaries; list / tuple / ndarray)
   envidx    an environment index >= number of environments at each cell, at every point of use (system
             construction with default state / chemostats, set_default_*, generate_*, kinetics, engine set-up)
@@ -40,6 +42,9 @@ declared synonym lists; names on which documentation and code disagree (reaction
 reaction "environments", system "chstt_map"/"chemostats") are never used, neither as valid nor as invalid keys.
 """
 import copy
+import json
+import os
+import tempfile
 
 from mc import core, pool, uq, eng
 from mc.ref import si, grammar
@@ -60,8 +65,10 @@ from strengths.rdscript import RDScript, rdscript_from_dict  # noqa: E402
 from strengths.rdoutput import RDTrajectory  # noqa: E402
 from strengths.units import (UnitsSystem, UnitValue, UnitArray, Units, unitarray_from_dict,  # noqa: E402
                              unitssystem_from_dict)
-from strengths.coarsegrain import coarsegrain_system  # noqa: E402
-from strengths.simulate import simulate_script  # noqa: E402
+from strengths.coarsegrain import coarsegrain_system, coarsegrain_grid  # noqa: E402
+from strengths.simulate import simulate_script, simulate  # noqa: E402
+from strengths.rdspace import load_rdspace  # noqa: E402
+from strengths.rdsystem import load_rdsystem  # noqa: E402
 from strengths import kinetics  # noqa: E402
 
 P = "C20"
@@ -942,31 +949,84 @@ def _sys_dict_with_space(space):
     return {"network": {"species": [{"label": "A"}], "environments": ["e0", "e1", "e2"]}, "space": space}
 
 
+# every value whose integer size is <= 0 (int() truncates towards zero); nan / inf are left out (no integer value:
+# neither the documentation nor the code's checks say anything about them)
+BAD_SIZES = (0, -1, -2, 0.0, -0.0, 0.5, 0.999, 1e-300, -0.5, -0.999, -1e-300, -1.0, -1.5)
+
+
+def _via_json(loader, d):
+    """d written as a JSON file and read back with load_rdspace / load_rdsystem."""
+    fd, path = tempfile.mkstemp(suffix=".json", prefix="c20_")
+    try:
+        with os.fdopen(fd, "w", encoding="utf-8") as f:
+            json.dump(d, f)
+        return loader(path)
+    finally:
+        try:
+            os.unlink(path)
+        except OSError:
+            pass
+
+
+def _grid_of(r):
+    if isinstance(r, RDGridSpace):
+        return r
+    if isinstance(r, RDSystem):
+        return r.space
+    if isinstance(r, RDScript):
+        return r.system.space
+    return None
+
+
 def _gridsize(case, out):
     only = case.get("only")
+
+    def script_dict(kw):
+        return {"system": _sys_dict_with_space(dict(kw)), "t_sample": [0, 1]}
     routes = {
         "ctor": lambda kw: RDGridSpace(**kw),
         "rdgridspace_from_dict": lambda kw: rdgridspace_from_dict(dict(kw)),
         "rdgridspace_from_dict-alias": lambda kw: rdgridspace_from_dict({AXIS_ALIAS[k]: v for k, v in kw.items()}),
         "rdspace_from_dict": lambda kw: rdspace_from_dict(dict(kw)),
         "rdsystem_from_dict": lambda kw: rdsystem_from_dict(_sys_dict_with_space(dict(kw))),
+        "rdsystem_from_dict-alias": lambda kw: rdsystem_from_dict(
+            _sys_dict_with_space({AXIS_ALIAS[k]: v for k, v in kw.items()})),
+        "rdscript_from_dict": lambda kw: rdscript_from_dict(script_dict(kw)),
+        "load_rdspace(json)": lambda kw: _via_json(load_rdspace, dict(kw)),
+        "load_rdspace(json)-alias": lambda kw: _via_json(load_rdspace, {AXIS_ALIAS[k]: v for k, v in kw.items()}),
+        "load_rdsystem(json)": lambda kw: _via_json(load_rdsystem, _sys_dict_with_space(dict(kw))),
     }
     route = case["route"]
     f = routes[route]
+
+    def shown(kw):
+        """The call, reporting the geometry when a grid comes back (for the violation text)."""
+        r = f(kw)
+        g = _grid_of(r)
+        if g is None:
+            return r
+        return "a grid with (w, h, d) = (%r, %r, %r), size() = %r, cell_env = %r" % (
+            g.w, g.h, g.d, g.size(), [int(x) for x in g.cell_env])
     for others in ((1, 1), (2, 1), (1, 2), (2, 2)):
         for a in AXES:
             rest = [x for x in AXES if x != a]
             good = {a: 2, rest[0]: others[0], rest[1]: others[1]}
-            accept(out, "grid-size", "%s:grid-size:%s:%s" % (P, a, route), "%s %r" % (route, good),
-                   lambda: f(good))
-            for bad in (0, -1):
+            r = accept(out, "grid-size", "%s:grid-size:%s:%s" % (P, a, route), "%s %r" % (route, good),
+                       lambda: f(good))
+            g = _grid_of(r)
+            if g is not None:
+                out.evals += 1
+                if g.w * g.h * g.d != 2 * others[0] * others[1]:
+                    out.add("%s:grid-size:%s:%s:valid-size-wrong" % (P, a, route),
+                            "%s %r built a grid %dx%dx%d" % (route, good, g.w, g.h, g.d))
+            for bad in BAD_SIZES:
                 kw = dict(good)
                 kw[a] = bad
                 item = dict(kw)
                 if not _selected(only, item):
                     continue
-                reject(out, "grid-size", "%s:grid-size:%s:%s" % (P, a, route), "%s with %r" % (route, kw),
-                       lambda: f(kw), item)
+                reject(out, "grid-size", "%s:grid-size:%s:%s" % (P, a, route),
+                       "%s with %r (integer size %d)" % (route, kw, int(bad)), lambda: shown(kw), item)
     return True
 
 
@@ -1887,12 +1947,73 @@ def _cgmap(case, out):
     return True
 
 
+# ---- coarse-graining a grid that has a periodical axis ("must not have periodical boundary conditions") -------------
+
+CGP_SHAPES = ((4, 1, 1), (2, 2, 1), (3, 2, 2))
+CGP_ROUTES = ("coarsegrain_grid", "coarsegrain_system", "simulate_script", "simulate")
+
+
+def _cgp_maps(n):
+    """Valid maps on a one-environment grid of n cells: identity, pairs lumped, identity with cell 0 dropped,
+    everything in one group, last cell dropped from the lumping."""
+    out = [("identity", list(range(n))), ("lumping", [i // 2 for i in range(n)]),
+           ("dropped-cell", [-1] + list(range(n - 1))), ("one-group", [0] * n),
+           ("lumping-dropped", [i // 2 for i in range(n - 1)] + [-1])]
+    return [(tag, m) for tag, m in out if CG.classify(m, n, [0] * n) is None]
+
+
+def _cgperiodic(case, out):
+    w, h, d = case["shape"]
+    route = case["route"]
+    only = case.get("only")
+    n = w * h * d
+    net = _net(2, 1)
+
+    def system(bc):
+        g = RDGridSpace(w=w, h=h, d=d, cell_env=0, cell_vol=8, boundary_conditions=dict(bc))
+        return RDSystem(net, g, state=[float(p) for p in _primes(2 * n)], chemostats=[0] * (2 * n))
+
+    def attempt(s, m):
+        if route == "coarsegrain_grid":
+            return lambda: coarsegrain_grid(s.space, m)
+        if route == "coarsegrain_system":
+            return lambda: coarsegrain_system(s, m)
+        if route == "simulate_script":
+            sc = RDScript(s, [0, 0.002], time_step=0.001, rng_seed=1)
+            return lambda: simulate_script(sc, eng.make_engine("euler"), cgmap=m)
+        return lambda: simulate(s, [0, 0.002], engine=eng.make_engine("euler"), cgmap=m, time_step=0.001, rng_seed=1)
+    key = "%s:cg-periodic-grid:%s" % (P, route)
+    maps = _cgp_maps(n)
+    refl = system({})
+    for tag, m in maps:
+        accept(out, "cg-periodic-grid", key, "%s on a reflecting %dx%dx%d grid with the valid map %r" % (route, w, h, d, m),
+               attempt(refl, m))
+    k = 0
+    for mask in range(1, 8):
+        bc = {a: ("periodical" if mask & (1 << i) else "reflecting") for i, a in enumerate("xyz")}
+        for explicit in (True, False):
+            bcd = bc if explicit else {a: v for a, v in bc.items() if v == "periodical"}
+            s = system(bcd)
+            for tag, m in maps:
+                item = {"bc": bcd, "map": m}
+                if not _selected(only, item):
+                    continue
+                if k % 8 == 0:
+                    accept(out, "cg-periodic-grid", key, "%s on a reflecting %dx%dx%d grid with the valid map %r "
+                           "(replayed between invalid inputs)" % (route, w, h, d, m), attempt(refl, m))
+                k += 1
+                reject(out, "cg-periodic-grid", key,
+                       "%s of a %dx%dx%d grid with boundary_conditions=%r and the (otherwise valid, %s) map %r"
+                       % (route, w, h, d, bcd, tag, m), attempt(s, m), item, s)
+    return True
+
+
 # =====================================================================================================
 # dispatch, enumeration
 # =====================================================================================================
 
 SUBS = {"keys": _keys, "dim": _dim, "usym": _usym, "gridsize": _gridsize, "envlen": _envlen, "envidx": _envidx,
-        "enum": _enum, "edgeidx": _edgeidx, "pos": _pos, "species": _species, "reaction": _reaction, "cgmap": _cgmap}
+        "enum": _enum, "edgeidx": _edgeidx, "cgperiodic": _cgperiodic, "pos": _pos, "species": _species, "reaction": _reaction, "cgmap": _cgmap}
 
 
 def _run_case(case):
@@ -2017,7 +2138,8 @@ def _spaces(tier):
     # --- small ones
     small = []
     for route in ("ctor", "rdgridspace_from_dict", "rdgridspace_from_dict-alias", "rdspace_from_dict",
-                  "rdsystem_from_dict"):
+                  "rdsystem_from_dict", "rdsystem_from_dict-alias", "rdscript_from_dict", "load_rdspace(json)",
+                  "load_rdspace(json)-alias", "load_rdsystem(json)"):
         small.append({"sub": "gridsize", "route": route})
     shapes = [(1, 1, 1), (2, 1, 1), (1, 2, 3), (3, 2, 1), (2, 2, 2)] if not thorough else L.all_shapes(3)
     for shape in shapes:
@@ -2028,10 +2150,16 @@ def _spaces(tier):
             small.append({"sub": "enum", "which": which, "route": route})
     for n in (1, 2, 3, 4):
         small.append({"sub": "edgeidx", "n": n})
+    for shape in CGP_SHAPES:
+        for route in CGP_ROUTES:
+            small.append({"sub": "cgperiodic", "shape": list(shape), "route": route})
     sp.append(("small: grid sizes 0/-1 per axis x routes; cell_env lengths n-1/n+1/0/2n x shapes x routes x "
                "containers; unknown boundary condition / axis / sampling policy / init_state_processing / empty "
                "environment list / environment 'default' x routes; RDGraphSpace.check() with an edge end outside the graph "
-               "(graphs of 1..4 nodes)", small, 4))
+               "(graphs of 1..4 nodes); coarse-graining (coarsegrain_grid / coarsegrain_system / simulate_script / simulate) "
+               "of 4x1x1, 2x2x1, 3x2x2 grids with each of the 7 non-reflecting boundary settings (full and partial "
+               "dictionaries) x valid maps; grid sizes now every value of integer size <= 0 %r x 10 routes incl. JSON files"
+               % (BAD_SIZES,), small, 2))
     return sp
 
 
@@ -2077,7 +2205,7 @@ def run(ctx):
         if isinstance(r, pool.Crash):
             i, lo, hi = job
             sub = _SPACES[i][1][lo]["sub"]
-            site = "engine" if sub in ("envidx", "cgmap") else "checker"
+            site = "engine" if sub in ("envidx", "cgmap", "cgperiodic") else "checker"
             ctx.violation("%s:%s:%s:worker-%s" % (P, site, sub, r.kind), r.detail[-1500:],
                           {"job": list(job), "cases": _SPACES[i][1][lo:hi][:3]})
             continue
